@@ -61,6 +61,9 @@ func ValidateRequest(ctx context.Context, input *RequestValidationInput) error {
 	// For each parameter of the PathItem
 	for _, parameterRef := range pathItemParameters {
 		parameter := parameterRef.Value
+		if options.ExcludeRequestQueryParams && parameter.In == openapi3.ParameterInQuery {
+			continue
+		}
 		if operationParameters != nil {
 			if override := operationParameters.GetByInAndName(parameter.In, parameter.Name); override != nil {
 				continue
